@@ -66,8 +66,44 @@ class Check:
         return quick if self.quick else thorough
 
     # ------------------------------------------------------------------ Coq
-    def coq_obligations(self, extra_props=()):
-        """Build the development (no-op when built), re-compile Props/<pid>.v to capture Print Assumptions."""
+    def _own_modules(self):
+        """Partition of the dependency closure of Props/<pid>.v (coqdep): modules that are in no other property's closure (own) and, for
+        every other module, the properties whose Props closure contains it (their thorough tier re-checks it with the full coqchk)."""
+        files = [l.strip() for l in open(os.path.join(COQ, '.files')) if l.strip()]
+        rc, out = sh('coqdep -Q . SG ' + ' '.join(files), cwd=COQ)
+        deps = {}
+        for ln in out.splitlines():
+            if ':' not in ln or '.vo' not in ln:
+                continue
+            l, r = ln.split(':', 1)
+            ds = [t[:-3] for t in r.split() if t.endswith('.vo')]
+            for t in l.split():
+                if t.endswith('.vo'):
+                    deps[t[:-3]] = ds
+
+        def closure(m):
+            seen, st = set(), [m]
+            while st:
+                x = st.pop()
+                if x not in seen:
+                    seen.add(x)
+                    st += deps.get(x, [])
+            return seen
+        mine = closure('Props/' + self.pid)
+        released = [l.strip() for l in open(os.path.join(ROOT, 'harness', 'released.txt')).read().split() if l.strip()]
+        owners = {}
+        for q in released:
+            if q != self.pid:
+                for m in closure('Props/' + q):
+                    owners.setdefault(m, []).append(q)
+        own = sorted(m for m in mine if m not in owners)
+        return own, {m: owners[m] for m in sorted(mine) if m in owners}
+
+    def coq_obligations(self, extra_props=(), coqchk_own=False):
+        """Build the development (no-op when built), re-compile Props/<pid>.v to capture Print Assumptions.
+        coqchk_own (thorough tier): run coqchk with -norec on the modules that only this property depends on instead of on the whole
+        closure; every other module of the closure belongs to the closure of another RELEASED property, whose thorough tier re-checks
+        it with the full coqchk.  What was re-checked and who re-checks the rest is written to the evidence (coqchk_scope)."""
         try:
             rc, out = sh("grep -rnE '%s' --include='*.v' ." % FORBIDDEN, cwd=COQ)
             if rc == 0:
@@ -101,6 +137,16 @@ class Check:
                                    out[-2500:], failing_input=False)
             if self.tier == 'thorough':
                 cmd = 'timeout 3000 coqchk -silent -o -Q . SG SG.Props.%s' % self.pid
+                if coqchk_own:
+                    own, rest = self._own_modules()
+                    if own:
+                        cmd = 'timeout 3000 coqchk -silent -o -Q . SG ' + ' '.join('-norec SG.' + m.replace('/', '.') for m in own)
+                        self.extra['coqchk_scope'] = dict(
+                            rechecked_modules=own,
+                            not_rechecked_here={m: 'full coqchk of ' + ','.join(v) for m, v in rest.items()},
+                            note='coqchk -norec: only the modules no other released property depends on are re-checked by this run; the '
+                                 'axioms listed in the summary below, if any, belong to library modules loaded without re-checking (the Coq standard library '
+                                 'is not re-checked by this run either; the full runs of the other properties do that)')
                 rc, out = sh(cmd, cwd=COQ)
                 self.checker_cmds.append('cd coq && ' + cmd)
                 self.extra['coqchk'] = out[-3000:]
